@@ -16,6 +16,8 @@ pub(crate) use listener::Listener;
 pub(crate) use listener::ListenerMessage;
 pub(crate) use session::Session;
 pub(crate) use session::SessionMessage;
+#[cfg(feature = "slawlor_ractor_verif")]
+pub(crate) use session::verif as session_verif;
 
 /// A network port
 pub(crate) type NetworkPort = u16;
